@@ -13,6 +13,7 @@ var parts = map[string]func(*vk.Ctx){}
 
 var harnesses = map[string]func(*vsched.H){
 	"MergeOKCount": harness.MergeOKCount,
+	"MergeReq":     harness.MergeReq,
 }
 
 func main() {
